@@ -280,11 +280,38 @@ func (u *Unit) seqEqTerm(a1 *Term, o1 *Term, l1 *Term, a2 *Term, o2 *Term, l2 *T
 			return And(cs...)
 		}
 	}
-	u.nq++
-	v := fmt.Sprintf("i%d", u.nq)
-	i := Const(v, SInt)
-	body := Implies(And(Le(IntLit(0), i), Lt(i, l1)), Eq(Select(a1, Add(o1, i)), Select(a2, Add(o2, i))))
-	return And(Eq(l1, l2), Forall(v, body))
+	o1, o2, l1 = u.name(o1, "o"), u.name(o2, "o"), u.name(l1, "l")
+	d := u.name(Sub(o2, o1), "d")
+	mk := func(base, other *Term, lo *Term, toOther func(k *Term) *Term, baseFirst bool) *Term {
+		u.nq++
+		v := fmt.Sprintf("k%d", u.nq)
+		k := Const(v, SInt)
+		u.binder++
+		var eq *Term
+		if baseFirst {
+			eq = Eq(Select(base, k), Select(other, toOther(k)))
+		} else {
+			eq = Eq(Select(other, toOther(k)), Select(base, k))
+		}
+		body := Implies(And(Le(lo, k), Lt(k, Add(lo, l1))), eq)
+		u.binder--
+		if body.IsBool {
+			return body
+		}
+		if base.Fn == nil {
+			return &Term{S: fmt.Sprintf("(forall ((%s Int)) (! %s :pattern ((select %s %s))))", v, body.S, base.S, v), Sort: SBool}
+		}
+		return Forall(v, body)
+	}
+	f1 := mk(a1, a2, o1, func(k *Term) *Term { return Add(k, d) }, true)
+	if a2.Fn != nil || a1.Fn != nil {
+		if a1.Fn != nil && a2.Fn == nil {
+			f1 = mk(a2, a1, o2, func(k *Term) *Term { return Sub(k, d) }, false)
+		}
+		return And(Eq(l1, l2), f1)
+	}
+	f2 := mk(a2, a1, o2, func(k *Term) *Term { return Sub(k, d) }, false)
+	return And(Eq(l1, l2), f1, f2)
 }
 
 func (u *Unit) equal(st *State, x, y Val, t types.Type) *Term {
